@@ -218,6 +218,9 @@ theorem afterTL_safe (rec : Loop) (f : Nat) (hrec : RecSafe rec f)
       · exact c5.2.1 (hl1'.1 hm)
       · have := hlenle hm; omega
     rw [if_neg c5]
+    by_cases cd : level + 1 > maxLevel
+    · rw [if_pos cd]; trivial
+    rw [if_neg cd]
     generalize hlc : (if len = -1 then limit1 else len) = limitc
     have hlimc : -1 ≤ limitc := by
       rw [← hlc]; split
@@ -482,7 +485,7 @@ theorem stream_safe : ∀ (fuel : Nat) (inp : Bytes) (off : Nat), inp.length < f
 
 /-- `unber -p` on arbitrary bytes terminates (the fuel is never exhausted), never indexes
     `tagbuf` out of bounds and never trips an `assert()`: it either succeeds or stops with one
-    of the eight diagnostics. -/
+    of the nine diagnostics (the ninth: the nesting limit). -/
 theorem unber_total (inp : Bytes) :
     (unber inp).1 = .ok ∨ ∃ e, (unber inp).1 = .failed e := by
   have := stream_safe (inp.length + 1) inp 0 (by omega)
